@@ -137,7 +137,11 @@ NormVal(ver, g, m) == IF m \in DOMAIN g /\ g[m] # NDOf(ver) THEN g[m]
                       ELSE IF m \in DOMAIN NDEquivOf(ver) THEN NDEquivOf(ver)[m]
                       ELSE IF m \in DOMAIN ModBaseOf(ver) /\ ModBaseOf(ver)[m] \in DOMAIN g THEN g[ModBaseOf(ver)[m]]
                       ELSE NDOf(ver)
-EquivOpts(ver, P, Q) == P # Q /\ \A m \in (DOMAIN P) \cup (DOMAIN Q) : NormVal(ver, P, m) = NormVal(ver, Q, m)
+\* Mode "equivnd" (C05): only "absent" and "written as Not Defined" are identified
+NormValND(ver, g, m) == IF m \in DOMAIN g /\ g[m] # NDOf(ver) THEN g[m] ELSE NDOf(ver)
+IsEquiv == Mode \in {"equiv", "equivnd"}
+EquivOpts(ver, P, Q) == P # Q /\ \A m \in (DOMAIN P) \cup (DOMAIN Q) :
+                           IF Mode = "equivnd" THEN NormValND(ver, P, m) = NormValND(ver, Q, m) ELSE NormVal(ver, P, m) = NormVal(ver, Q, m)
 EquivPairsOf(h, dd) == LET n == Len(h.inner[dd].opts) IN
    { <<dd, pq[1], pq[2], {1,2,3}>> : pq \in { x \in (1..n) \X (1..n) : x[1] < x[2] /\ EquivOpts(h.ver, h.inner[dd].opts[x[1]], h.inner[dd].opts[x[2]]) } }
 EquivPairs(h) == UNION { EquivPairsOf(h, dd) : dd \in 1..Len(h.inner) }
@@ -169,12 +173,12 @@ MonoRow(row, h) ==
        own == TLCEval(Owner(h))  tab == TLCEval(OptFull(h))  ctx == TLCEval(Full(h.ver, og))
        \* in the design-level modes the compared values are the specification's own scores
        vals == IF SpecMode THEN TLCEval([j \in 0..(n-1) |-> TLCEval(ScoresOfFull(h.ver, h.minor, EntryFull(h, own, tab, ctx, str, j)))]) ELSE <<>>
-       pairs == TLCEval(IF Mode = "equiv" THEN EquivPairs(h) ELSE StepPairs(h, og))
+       pairs == TLCEval(IF IsEquiv THEN EquivPairs(h) ELSE StepPairs(h, og))
        V(j, k) == IF SpecMode THEN vals[j][k] ELSE row.obs[j * h.slots + k]
        \* entries whose digit in dimension pr[1] is pr[2]:  j = hi * (rad*str) + (pr[2]-1) * str + lo
        J(pr, hi, lo) == hi * rad[pr[1]] * str[pr[1]] + (pr[2]-1) * str[pr[1]] + lo
        Lowers(pr, j) == LET j2 == j + (pr[3] - pr[2]) * str[pr[1]] IN
-                        \E k \in pr[4] : k <= h.slots /\ V(j,k) >= 0 /\ V(j2,k) >= 0 /\ (IF Mode = "equiv" THEN V(j,k) # V(j2,k) ELSE V(j,k) > V(j2,k))
+                        \E k \in pr[4] : k <= h.slots /\ V(j,k) >= 0 /\ V(j2,k) >= 0 /\ (IF IsEquiv THEN V(j,k) # V(j2,k) ELSE V(j,k) > V(j2,k))
        \* the same test with everything loop-invariant hoisted (this is the hot loop of the check)
        slots == h.slots
        obs == row.obs
@@ -183,7 +187,7 @@ MonoRow(row, h) ==
                           ks == {k \in pr[4] : k <= slots}  nhi == (n \div span) - 1  nlo == s - 1 IN
                       IF spec THEN \E hi \in 0..nhi : \E lo \in 0..nlo : \E k \in ks :
                                       LET x == vals[hi*span + off + lo][k]  y == vals[hi*span + off + lo + delta][k] IN x >= 0 /\ y >= 0 /\ x > y
-                      ELSE IF Mode = "equiv" THEN \E hi \in 0..nhi : \E lo \in 0..nlo : \E k \in ks :
+                      ELSE IF IsEquiv THEN \E hi \in 0..nhi : \E lo \in 0..nlo : \E k \in ks :
                               LET x == obs[(hi*span + off + lo)*slots + k]  y == obs[(hi*span + off + lo + delta)*slots + k] IN x >= 0 /\ y >= 0 /\ x # y
                       ELSE \E hi \in 0..nhi : \E lo \in 0..nlo : \E k \in ks :
                               LET x == obs[(hi*span + off + lo)*slots + k]  y == obs[(hi*span + off + lo + delta)*slots + k] IN x > y /\ y >= 0
@@ -193,12 +197,12 @@ MonoRow(row, h) ==
                          ((j \div str[pr[1]]) % rad[pr[1]]) + 1 = pr[2] /\ Lowers(pr, j)}
                b == CHOOSE x \in bad : TRUE
                j2 == b[1] + (b[2][3] - b[2][2]) * str[b[2][1]]
-           IN (IF Mode = "equiv" THEN "equiv " ELSE "mono ") \o VectorOf(h, InnerAsg(h, str, b[1]) @@ og) \o " -> " \o VectorOf(h, InnerAsg(h, str, j2) @@ og)
+           IN (IF IsEquiv THEN "equiv " ELSE "mono ") \o VectorOf(h, InnerAsg(h, str, b[1]) @@ og) \o " -> " \o VectorOf(h, InnerAsg(h, str, j2) @@ og)
               \o " lowers " \o ToString([k \in 1..h.slots |-> V(b[1],k)]) \o " to "
               \o ToString([k \in 1..h.slots |-> V(j2,k)]) \o " nbad=" \o ToString(Cardinality(bad))
               \o " metrics=" \o ToString({h.inner[x[2][1]].name : x \in bad})
 NPairs(row, h) == LET og == OuterAsg(h, row.o) IN
-   LET pairs == IF Mode = "equiv" THEN EquivPairs(h) ELSE StepPairs(h, og)  rad == Radix(h.inner)  n == Size(h.inner) IN
+   LET pairs == IF IsEquiv THEN EquivPairs(h) ELSE StepPairs(h, og)  rad == Radix(h.inner)  n == Size(h.inner) IN
    \* number of compared (entry, step, slot) triples in this row
    LET F[S \in SUBSET pairs] == IF S = {} THEN 0 ELSE LET x == CHOOSE y \in S : TRUE IN
                                   (n \div rad[x[1]]) * Cardinality(x[4]) + F[S \ {x}] IN F[pairs]
